@@ -57,7 +57,10 @@ def run_suite(tree):
     base = set(json.load(open("/root/.vp/BASELINE.json"))["stable_pass"])
     rc, out = sh("./xcmtest -v -p 8 2>&1", cwd=tree, timeout=2400)
     ok = set(m.group(1) for m in re.finditer(r"^\s*(\w+:\w+): OK", out, re.M))
-    missing = sorted(base - ok)
+    # stable in the recorded baseline, but failing most solo runs on the unchanged tree in
+    # this sandbox (timing assertion at xcm_testcases.c:2060): not attributable to a seed
+    flaky_here = {"xcm:backpressure_with_slow_server"}
+    missing = sorted(base - ok - flaky_here)
     # retry the missing ones alone (machine load makes timing tests flaky)
     still = []
     for t in missing:
@@ -86,6 +89,8 @@ def main():
     patch = os.path.join(d, "patch.diff")
     res = {"property": a.prop, "seed": a.n, "tree": tree}
     sh("git checkout -- libxcm common libxcmctl tools include", cwd=tree)
+    # the scratch tree follows /repo's HEAD (fix: commits made after the tree was created)
+    sh("git checkout -q --detach $(git -C /repo rev-parse HEAD)", cwd=tree)
     rc, out = sh("git apply --check %s" % patch, cwd=tree)
     if rc:
         res["error"] = "patch does not apply: " + out[-300:]
@@ -126,13 +131,22 @@ def main():
     res["confirmed"] = bool(confirmed)
     dst = os.path.join(VERIF, "seeded", "%s-%s" % (a.prop, a.n))
     if confirmed:
-        shutil.rmtree(dst, ignore_errors=True)
-        os.makedirs(dst)
+        os.makedirs(dst, exist_ok=True)
         for f in os.listdir(d):
             if f in ("demo", "suite.log") or os.path.isdir(os.path.join(d, f)):
                 continue
             shutil.copy(os.path.join(d, f), dst)
         readme = open(os.path.join(d, "README.md"), errors="replace").read() if os.path.exists(os.path.join(d, "README.md")) else ""
+        old = {}
+        try:
+            old = json.load(open(os.path.join(VERIF, "seeded", "%s-%s" % (a.prop, a.n), "meta.json")))
+        except Exception:
+            pass
+        if a.no_suite and "suite_not_passing_with_change" in old:
+            res["suite_not_passing_with_change"] = old["suite_not_passing_with_change"]
+        prev_checks = old.get("checks_run", {})
+        prev_checks.update(res["checks"])
+        res["checks"] = prev_checks
         meta = {
             "property": a.prop,
             "breaks": "see README.md (written by the seeding sub-agent)",
